@@ -366,6 +366,29 @@ func (d *flagDisc) cellTrueAt(cell ssa.Value, ev flagEvent, at ssa.Instruction, 
 	if ev.cell != nil && ev.cell == cell {
 		start = set
 	}
+	if start == unset && !ev.pseudo {
+		// the flag may have been raised just before the entry is written ("hasData = true" first, then the map update)
+		b, i := ev.in.Block(), instrIndex(ev.in)-1
+	back:
+		for hops := 0; hops < 4; hops++ {
+			for ; i >= 0; i-- {
+				if st, ok := b.Instrs[i].(*ssa.Store); ok && st.Addr == cell {
+					if k, ok := st.Val.(*ssa.Const); ok && k.Value != nil && k.Value.ExactString() == "true" {
+						start = set
+					}
+					break back
+				}
+				if _, isCall := b.Instrs[i].(*ssa.Call); isCall && closureArg(b.Instrs[i].(*ssa.Call)) != nil {
+					break back
+				}
+			}
+			if len(b.Preds) != 1 {
+				break
+			}
+			b = b.Preds[0]
+			i = len(b.Instrs) - 1
+		}
+	}
 	type st struct {
 		b     *ssa.BasicBlock
 		state int
